@@ -427,7 +427,8 @@ def line_facts(events):
             kk = (ln, e["side"], e["key"]["t"])
             sums[kk] = sums.get(kk, 0) + Fraction(c["ip"] * 10 ** c["fd"] + c["fp"], 10 ** c["fd"])
     rt_bare = sorted(set(k[1] for k, v in sums.items() if v == 1))
-    return {"fault": fault, "printable": not fault and not inact and not named, "rt_bareparen": rt_bare,
+    rt_closed = any(k[2].endswith(")") for k, v in sums.items() if v == 1)
+    return {"fault": fault, "printable": not fault and not inact and not named, "rt_bareparen": rt_bare, "rt_bareparen_closed": rt_closed,
             "bareparen": sorted(set(e["side"] for e in bare)),
             "bareparen_closed": any(e["key"]["t"].endswith(")") for e in bare),
             "unknown_bareparen": any(e["k"] == "unknown" for e in bare),
